@@ -308,3 +308,24 @@ M("c11-pin-position-yheight", "C11", "cola/libavoid/connectionpin.cpp",
 M("c11-pin-dirs-swapped", "C11", "cola/libavoid/connectionpin.cpp",
   "        if (m_y_offset == ATTACH_POS_TOP)\n        {\n            visDir |= ConnDirUp;", "        if (m_y_offset == ATTACH_POS_TOP)\n        {\n            visDir |= ConnDirDown;",
   mention=["PIN-DIRECTIONS"])
+
+# ---------------------------------------------------------------- C08
+M("c08-gap-one-half", "C08", "cola/libcola/cc_nonoverlapconstraints.cpp",
+  "                constraint = new vpsc::Constraint(varRight1, varLeft2,\n                             above1 + below2);", "                constraint = new vpsc::Constraint(varRight1, varLeft2,\n                             above1);",
+  mention=["NONOVERLAP-FORM"])
+M("c08-wrong-dim-test", "C08", "cola/libcola/cc_nonoverlapconstraints.cpp",
+  "        if (rect1.overlapD(!dim, &rect2) > 0.0005)", "        if (rect1.overlapD(dim, &rect2) > 0.0005)", mention=["NONOVERLAP-FORM"])
+M("c08-halfdim-swapped", "C08", "cola/libcola/cc_nonoverlapconstraints.h",
+  "            halfDim[0] = xOffset;\n            halfDim[1] = yOffset;\n        }\n        OverlapShapeOffsets(unsigned ind, Cluster",
+  "            halfDim[0] = yOffset;\n            halfDim[1] = xOffset;\n        }\n        OverlapShapeOffsets(unsigned ind, Cluster",
+  mention=["PAIRS-COMPLETE"], tu=["cola/libcola/cc_nonoverlapconstraints.cpp"])
+M("c08-pair-dropped2", "C08", "cola/libcola/cc_nonoverlapconstraints.cpp",
+  "        if ((shapeOffsets[otherId].group == group) && (id != otherId) && exemptions.count(otherId)==0)", "        if ((shapeOffsets[otherId].group == group) && (id != otherId) && (otherId != 1 || id != 2) && exemptions.count(otherId)==0)",
+  mention=["PAIRS-COMPLETE"])
+M("c08-site-height-width", "C08", "cola/libcola/colafd.cpp",
+  "            noc->addShape(i, boundingBoxes[i]->width() / 2,\n                    boundingBoxes[i]->height() / 2);", "            noc->addShape(i, boundingBoxes[i]->height() / 2,\n                    boundingBoxes[i]->width() / 2);",
+  mention=["ADDSHAPE-SITES"])
+M("c08-noc-not-appended", "C08", "cola/libcola/colafd.cpp",
+  "            recGenerateClusterVariablesAndConstraints(vs, priority,\n                    noc, clusterHierarchy, extraConstraints);\n            extraConstraints.push_back(noc);",
+  "            recGenerateClusterVariablesAndConstraints(vs, priority,\n                    noc, clusterHierarchy, extraConstraints);\n            if (!clusterHierarchy->clusters.empty()) extraConstraints.push_back(noc);",
+  mention=["WIRING"])
